@@ -1690,6 +1690,26 @@ theorem request_errors_perm_spec_partial (d : Doc) (o : CallOpts) (fr : FullReq)
   intro p hp
   exact key p (List.mem_filter.1 hp).1
 
+/-- MultiError does not change acceptance: the request passes with `MultiError` exactly when it passes without, and
+the single error returned without it is the first of the collected ones -/
+theorem request_multi_same_acceptance (d : Doc) (ex : Bool) (fr : FullReq) :
+    (validateRequestParams d ⟨ex, true⟩ fr = .ok ↔ validateRequestParams d ⟨ex, false⟩ fr = .ok) ∧
+    (∀ e, validateRequestParams d ⟨ex, false⟩ fr = .first e →
+      ∃ es, validateRequestParams d ⟨ex, true⟩ fr = .multi (e :: es)) := by
+  have hre : requestErrors validateParameter d ⟨ex, true⟩ fr = requestErrors validateParameter d ⟨ex, false⟩ fr := by
+    rfl
+  unfold validateRequestParams
+  rw [hre]
+  constructor
+  · rw [outOf_ok, outOf_ok]
+  · intro e h
+    cases hl : requestErrors validateParameter d ⟨ex, false⟩ fr with
+    | nil => rw [hl] at h; simp [outOf] at h
+    | cons a as =>
+      rw [hl] at h
+      simp [outOf] at h
+      exact ⟨as, by simp [outOf, h]⟩
+
 /-- loop order: with MultiError the errors of path-item parameters come before those of operation parameters -/
 theorem request_errors_order (val : Param → Req → Verdict) (d : Doc) (o : CallOpts) (fr : FullReq) :
     requestErrors val d o fr =
